@@ -128,11 +128,12 @@ LAST_WORDS = set()     # last word of every pattern literal (filled by source_wo
 
 def optional_word(w):
     """the word has an empty alternative (`const|`) and no pattern literal of the sources ends in such a word"""
-    if w in ("|", "||") or w.startswith("[") or w.startswith("!!"):
+    def has_empty_alternative(x):
+        # `a|b|` - a trailing separator; the operators | || |= ||= are words of their own, not separators
+        return len(x) > 1 and x.endswith("|") and not x.endswith("||") and not x.startswith("[") and not x.startswith("!!")
+    if not has_empty_alternative(w):
         return False
-    if "" not in w.split("|"):
-        return False
-    return not any(x not in ("|", "||") and not x.startswith("[") and "" in x.split("|") for x in LAST_WORDS)
+    return not any(has_empty_alternative(x) for x in LAST_WORDS)
 
 
 def source_words():
